@@ -17,7 +17,7 @@ import (
 )
 
 type C08Step struct {
-	Kind     string   `json:"k"` // save savepipe resave search
+	Kind     string   `json:"k"`                  // save savepipe resave search
 	Command  string   `json:"command,omitempty"`  // Go-quoted
 	Desc     string   `json:"desc,omitempty"`     // Go-quoted
 	Name     string   `json:"name,omitempty"`     // Go-quoted (save-pipeline)
